@@ -3,9 +3,9 @@ CONSTANTS
   MaxClock = 600
   MaxStep = 2
   BigSteps = {30, 110}
-  Enabled = {"tick", "sched", "manual", "dry", "range", "from", "until", "fault", "update", "restart"}
-  MaxCmds = 2
-  Points = {1, 5, 7, 13}
+  Enabled = {"sched", "until", "range", "from"}
+  MaxCmds = 3
+  Points = {5, 7}
   Weight = 1
   Emit = TRUE
 INVARIANTS EmitInv
